@@ -190,7 +190,7 @@ Qed.
 (* ================================================================ what each API call adds to each word *)
 Lemma wr_nobinv o q : wr o q = true -> (forall k s, o <> ORateIncr (RKey k) s) -> binv_loc q = false.
 Proof.
-  intros H Hn. destruct q as [r0|r0|r0|r0|c0|m0|m0| | |k0]; try reflexivity.
+  intros H Hn. destruct q as [r0|r0|r0|r0|c0|m0|m0| | |k0|c1]; try reflexivity.
   - destruct r0; try reflexivity. exfalso.
     destruct o; try destruct r; cbn [wr] in H; unfold rate_cells, is_key_rate_cell in H; simpl in H;
       try discriminate; try (eapply Hn; reflexivity).
@@ -456,7 +456,7 @@ Proof.
   rewrite andb_true_r. unfold clobbers.
   destruct o; try discriminate; try destruct r0; cbn [wr adds_to]; unfold rate_cells;
     try (rewrite andb_negb_r; reflexivity); try reflexivity.
-  destruct l as [r0|r0|r0|r0|c0|mm|mm| | |k0]; try reflexivity;
+  destruct l as [r0|r0|r0|r0|c0|mm|mm| | |k0|c1]; try reflexivity;
     try (destruct r0; try reflexivity; simpl; try discriminate;
          destruct (N.eqb_spec k0 k); reflexivity).
   simpl. destruct (N.eqb_spec k0 k) as [->|]; [|reflexivity]. exfalso. eapply Hp. reflexivity.
